@@ -128,7 +128,10 @@ def parseOp (ws : List String) : Option Op :=
 def machine : Machine where
   σ := Cfg × State
   init kv :=
-    let cfg : Cfg := { max := kv.nat "max" 1, maxWait := (if kv.str "wait" "" = "max" then some (10 ^ 30) else kv.optNat "wait") }
+    let cfg : Cfg := { max := kv.nat "max" 1, maxWait := (if kv.str "post" "" = "reject" then some 0
+                  else if kv.str "wait" "" = "max" then some (10 ^ 30)
+                  else if kv.str "pre" "" = "reject" && (kv.optNat "wait").isNone then some 0
+                  else kv.optNat "wait") }
     (cfg, init cfg)
   step := fun (cfg, s) ws =>
     match parseOp ws with
